@@ -7,7 +7,7 @@
 From Coq Require Import List String ZArith NArith Bool Lia.
 Import ListNotations.
 From DV Require Import Model.Tree Model.Tables Model.Skeleton Model.FragSkel Model.Link Model.Restore
-     Proofs.LinkProofs Proofs.LinkPanic Proofs.RestoreProofs Proofs.DupProofs
+     Model.Fragment Proofs.LinkProofs Proofs.LinkPanic Proofs.RestoreProofs Proofs.DupProofs Proofs.FragSafe
      Gen.Universe Gen.DataTbl Gen.FragTbl Gen.RestTbl Gen.ImportsSrc Gen.ErrProp Gen.PanicSites.
 Local Open Scope string_scope.
 Local Open Scope list_scope.
@@ -28,6 +28,17 @@ Theorem C15_every_node_bracketed_by_points :
                                     then filter (fun s => match s with SkList _ => false | _ => true end) (frag_skeleton (snd e))
                                     else frag_skeleton (snd e)))) frag_tbl = true.
 Proof. vm_compute. reflexivity. Qed.
+
+(* addNodeFragments dereferences no nil child: for every tree inside the envelope -- every node
+   offers the children its kind's case descends into without a nil check, and values of the right
+   shape for tokens, strings and conditions -- the interpreter of the regenerated fragment table
+   keeps its error flag clear.  The envelope is a boolean; it is evaluated on every tree go/parser
+   produced in the run, including the partial trees of truncated and corrupted sources
+   (mismatch_envelope, mismatch_envelope_malformed), and the interpreter is corresponded against the
+   real fragment() on the same trees. *)
+Theorem C15_fragment_dereferences_no_nil_child :
+  forall t, frag_envelope frag_tbl t = true -> f_err (node_frags frag_tbl t) = false.
+Proof. exact (fragment_no_nil_dereference frag_tbl). Qed.
 
 (* restorer: for every action list with non-negative lengths in which no "\n" decoration is
    executed before anything was emitted, if no explicit panic action is executed (duplicate
@@ -92,6 +103,7 @@ Proof. vm_compute. split; reflexivity. Qed.
 
 Print Assumptions C15_link_does_not_panic.
 Print Assumptions C15_every_node_bracketed_by_points.
+Print Assumptions C15_fragment_dereferences_no_nil_child.
 Print Assumptions C15_restore_produces_a_file.
 Print Assumptions C15_panic_sites_are_the_audited_ones.
 Print Assumptions C15_errors_are_returned.
